@@ -15,8 +15,10 @@ package main
 import (
 	"fmt"
 	"go/ast"
+	"go/constant"
 	"go/token"
 	"path/filepath"
+	"sort"
 	"strconv"
 	"strings"
 )
@@ -398,7 +400,7 @@ var dagsFrozen = []struct{ recv, name string }{
 	{"Map", "SortedNodes"}, {"Map", "SortedLayers"},
 	{"", "traceCircle"}, {"", "minCircle"},
 	{"", "checkPush"}, {"", "checkPushNode"}, {"", "pushWorthy"}, {"", "pushNode"}, {"", "pushTight"},
-	{"", "critOutMaxLayer"}, {"", "avgCritInY"}, {"", "findY"}, {"", "LayoutMap"},
+	{"", "critOutMaxLayer"}, {"", "avgCritInY"}, {"", "LayoutMap"},
 	{"Graph", "Reverse"},
 }
 
@@ -433,7 +435,7 @@ func genDags(repo string) (string, error) {
 	var b strings.Builder
 	b.WriteString("(* Generated by gen/dags.go from /repo/dags. Do not edit. *)\n")
 	b.WriteString("From Coq Require Import List ZArith String.\n")
-	b.WriteString("From Verif Require Import Dag.Model.\n")
+	b.WriteString("From Verif Require Import Dag.Model Dag.Ops.\n")
 	b.WriteString("Import ListNotations.\nLocal Open Scope string_scope.\n\n")
 	fmt.Fprintf(&b, "Definition gen_by_layer : cmp_keys := [%s].\n", strings.Join(byLayer, "; "))
 	fmt.Fprintf(&b, "Definition gen_by_ncrit : cmp_keys := [%s].\n", strings.Join(byNcrit, "; "))
@@ -445,6 +447,109 @@ func genDags(repo string) (string, error) {
 		unk = append(unk, coqStr(u))
 	}
 	fmt.Fprintf(&b, "Definition gen_unknown : list string :=\n  %s.\n\n", coqList(unk))
-	fmt.Fprintf(&b, "Definition gen_frozen : list (string * string) :=\n  %s.\n", coqList(frozen))
+	fmt.Fprintf(&b, "Definition gen_frozen : list (string * string) :=\n  %s.\n\n", coqList(frozen))
+	fmt.Fprintf(&b, "Definition gen_findy : fy_skel :=\n  %s.\n\n", d.findYSkel())
+
+	// every integer the package names: literals and constants above 8 (graph
+	// sizes on both sides of each are worth a case)
+	seen := map[int64]bool{}
+	var lits []string
+	addLit := func(v constant.Value) {
+		if v == nil || v.Kind() != constant.Int {
+			return
+		}
+		if x, ok := constant.Int64Val(v); ok && x > 8 && !seen[x] {
+			seen[x] = true
+			lits = append(lits, fmt.Sprintf("%d%%N", x))
+		}
+	}
+	consts, _ := p.consts()
+	for _, v := range consts {
+		addLit(v)
+	}
+	for _, fn := range p.sortedFiles() {
+		if strings.HasSuffix(fn, "_test.go") {
+			continue
+		}
+		ast.Inspect(p.files[fn], func(n ast.Node) bool {
+			if bl, ok := n.(*ast.BasicLit); ok && bl.Kind == token.INT {
+				addLit(constant.MakeFromLiteral(bl.Value, token.INT, 0))
+			}
+			return true
+		})
+	}
+	sort.Strings(lits)
+	fmt.Fprintf(&b, "Definition gen_int_literals : list N := [%s].\n", strings.Join(lits, "; "))
 	return b.String(), nil
+}
+
+// findYSkel reads the slot probe of findY: how the offset starts, whether the
+// loop has an exit condition, the guarded returns "if !tak[E] { return E }" of
+// its body in order, the step, and every return that is NOT guarded by a test
+// of the very slot it returns.
+func (d *dagsGen) findYSkel() string {
+	p := d.p
+	fd := p.funcDecl("", "findY")
+	if fd == nil || fd.Body == nil {
+		return "(mkFY false false [] false [" + coqStr("findY not found") + "])"
+	}
+	squash := func(s string) string { return strings.ReplaceAll(s, " ", "") }
+	initZero, unbounded, step := false, false, false
+	var probes, others []string
+	checked := map[*ast.ReturnStmt]bool{}
+	var loop *ast.ForStmt
+	for _, st := range fd.Body.List {
+		switch x := st.(type) {
+		case *ast.AssignStmt:
+			if p.src(x) == "offset := 0" {
+				initZero = true
+			}
+		case *ast.ForStmt:
+			loop = x
+		}
+	}
+	if loop != nil {
+		unbounded = loop.Cond == nil && loop.Init == nil && loop.Post == nil
+		if loop.Init != nil && p.src(loop.Init) == "offset := 0" {
+			initZero = true
+		}
+		if loop.Post != nil && p.src(loop.Post) == "offset++" {
+			step = true
+		}
+		for i, st := range loop.Body.List {
+			switch x := st.(type) {
+			case *ast.IfStmt:
+				c := squash(p.src(x.Cond))
+				if x.Init == nil && x.Else == nil && len(x.Body.List) == 1 && strings.HasPrefix(c, "!tak[") && strings.HasSuffix(c, "]") {
+					if r, ok := x.Body.List[0].(*ast.ReturnStmt); ok && len(r.Results) == 1 &&
+						squash(p.src(r.Results[0])) == c[len("!tak["):len(c)-1] {
+						checked[r] = true
+						switch c[len("!tak[") : len(c)-1] {
+						case "yavg+offset":
+							probes = append(probes, "FYPlus")
+						case "yavg-offset":
+							probes = append(probes, "FYMinus")
+						default:
+							probes = append(probes, "(FYOther "+coqStr(c)+")")
+						}
+						continue
+					}
+				}
+				probes = append(probes, "(FYOther "+coqStr(p.src(x))+")")
+			case *ast.IncDecStmt:
+				if i == len(loop.Body.List)-1 && p.src(x) == "offset++" {
+					step = true
+				}
+			default:
+				probes = append(probes, "(FYOther "+coqStr(p.src(st))+")")
+			}
+		}
+	}
+	ast.Inspect(fd.Body, func(n ast.Node) bool {
+		if r, ok := n.(*ast.ReturnStmt); ok && !checked[r] {
+			others = append(others, coqStr(p.src(r)))
+		}
+		return true
+	})
+	return fmt.Sprintf("(mkFY %v %v [%s] %v [%s])", initZero, unbounded, strings.Join(probes, "; "), step, strings.Join(others, "; "))
 }
